@@ -186,6 +186,14 @@ static std::vector<Scenario> catalogue() {
 	s.push_back({ "xml_load_stream", true, true, [=] { return save_str<XmlArchive>(doc()); }, [](const std::string& in) { load_stream<XmlArchive, Doc>(in); } });
 	s.push_back({ "xml_save_mem", false, false, nullptr, [=](const std::string&) { save_mem<XmlArchive>(doc()); } });
 	s.push_back({ "xml_save_stream", false, true, nullptr, [=](const std::string&) { save_stream<XmlArchive>(doc()); } });
+	// ---- owning members (unique_ptr / shared_ptr / optional of classes and containers, also as elements): a load that throws
+	//      (truncation, allocation failure, stream failure) must not leak the objects created for loading
+	auto odoc = [] { return make_owner_doc(5); };
+	s.push_back({ "mp_owner_mem", true, false, [=] { return save_str<MsgPackArchive>(odoc()); }, [](const std::string& in) { load_mem<MsgPackArchive, OwnerDoc>(in); } });
+	s.push_back({ "mp_owner_stream", true, true, [=] { return save_str<MsgPackArchive>(odoc()); }, [](const std::string& in) { load_stream<MsgPackArchive, OwnerDoc>(in); } });
+	s.push_back({ "json_owner_mem", true, false, [=] { return save_str<JsonArchive>(odoc()); }, [](const std::string& in) { load_mem<JsonArchive, OwnerDoc>(in); } });
+	s.push_back({ "xml_owner_mem", true, false, [=] { return save_str<XmlArchive>(odoc()); }, [](const std::string& in) { load_mem<XmlArchive, OwnerDoc>(in); } });
+	s.push_back({ "mp_owner_save", false, false, nullptr, [=](const std::string&) { save_mem<MsgPackArchive>(odoc()); } });
 	// ---- containers at the root
 	s.push_back({ "mp_map_mem", true, false, [] { return save_str<MsgPackArchive>(std::map<std::string, int>{ { "a", 1 }, { "bb", 2 }, { "ccc", 3 } }); },
 		[](const std::string& in) { load_mem<MsgPackArchive, std::map<std::string, int>>(in); } });
